@@ -15,7 +15,7 @@ import argparse, json, os, shutil, subprocess, sys, time
 
 ROOT = '/verif'
 REPO = '/repo'
-WORK = os.path.join(ROOT, '.work', 'selftest')
+WORK = os.path.join(ROOT, '.work', 'selftest.%d' % os.getpid())
 ENV = dict(os.environ, GOFLAGS='-mod=mod', GOPROXY='off', GOSUMDB='off', GOTOOLCHAIN='local')
 
 sys.path.insert(0, os.path.dirname(os.path.abspath(__file__)))
